@@ -125,7 +125,18 @@ def roundtrip(top, n, c0, c1, c2, v, w):
     return False
   other = tree(top, n, c0, c1, c2, w)
   got = SER.from_state_dict(t, SER.to_state_dict(other))
-  return same(got, other) and same(t, keep)
+  if not same(got, other) or not same(t, keep):
+    return False
+  # entries are matched by key / index string, never by position: a state dict
+  # whose insertion order is reversed at every level restores the same tree
+  got2 = SER.from_state_dict(t, reverse_keys(SER.to_state_dict(other)))
+  return same(got2, other)
+
+
+def reverse_keys(sd):
+  if isinstance(sd, dict):
+    return {k: reverse_keys(sd[k]) for k in reversed(list(sd.keys()))}
+  return sd
 
 
 def _err_ok(e, must_name):
